@@ -93,7 +93,9 @@ fn run_shard(args: &[String]) -> i32 {
         ctx.slow_tool = true;
         monitor::set_meter(false);
     }
-    monitor::spawn_cpu_watchdog(10.0, format!("{}.watchdog", out));
+    // every guarded library call of every check is watched: more than 10 s of CPU in a single call ends the shard
+    // (reported by the parent as "does not terminate"); under valgrind the allowance is 25x
+    monitor::spawn_cpu_watchdog(if ctx.slow_tool { 250.0 } else { 10.0 }, format!("{}.watchdog", out));
     let Some(p) = props::find(&prop) else {
         eprintln!("unknown property {}", prop);
         return 2;
@@ -355,11 +357,16 @@ fn run_parent(args: &[String]) -> i32 {
                     .ok()
                     .and_then(|t| serde_json::from_str::<Value>(&t).ok())
                     .unwrap_or(json!({}));
+                let fam = dump["family"].as_str().unwrap_or("?").to_string();
+                let mut case = json!({"family": fam, "idx": dump["idx"], "tag": dump["case"]});
+                if dump["bytes"].as_str().map(|b| !b.is_empty()).unwrap_or(false) && prop == "C01" {
+                    case["bytes"] = dump["bytes"].clone();
+                }
                 extra_violations.push(json!({
                     "clause": "terminates-in-bounded-time",
-                    "signature": format!("cpu-watchdog:{}", dump["case"].as_str().unwrap_or("?")),
-                    "detail": format!("a single case burned more than {} s of CPU", dump["limit_s"]),
-                    "case": {"bytes": dump["bytes"], "tag": dump["case"]},
+                    "signature": format!("cpu-watchdog:{}", fam),
+                    "detail": format!("a single library call in case {}:{} burned more than {} s of CPU (the call does not return)", fam, dump["idx"], dump["limit_s"]),
+                    "case": case,
                     "count": 1
                 }));
             }
@@ -443,7 +450,15 @@ fn run_parent(args: &[String]) -> i32 {
     let mut samples: Vec<Value> = Vec::new();
     let mut notes: Vec<String> = Vec::new();
     let all_hashes: HashSet<u64> = HashSet::new();
-    let mut viols: Vec<Value> = extra_violations;
+    let mut viols: Vec<Value> = Vec::new();
+    for v in extra_violations {
+        if let Some(e) = viols.iter_mut().find(|e: &&mut Value| e["signature"] == v["signature"]) {
+            let c = e["count"].as_u64().unwrap_or(1) + v["count"].as_u64().unwrap_or(1);
+            e["count"] = json!(c);
+        } else {
+            viols.push(v);
+        }
+    }
     let mut foreign_panics: Vec<Value> = Vec::new();
     for r in &results {
         let Some(j) = &r.json else { continue };
